@@ -9,6 +9,8 @@ import (
 	"encoding/hex"
 	"fmt"
 	"os"
+	"runtime"
+	"runtime/pprof"
 	"strings"
 	"time"
 )
@@ -48,6 +50,8 @@ func Guard(f func() string) (out string) {
 
 // Run feeds every line of the ops file to step and writes "<line> => <observable>".
 // Lines starting with '#' and empty lines are copied through.
+var nreset int
+
 func Run(step func(words []string, line string) string) {
 	if len(os.Args) < 3 {
 		fmt.Fprintln(os.Stderr, "usage: <harness> <ops-file> <trace-file>")
@@ -89,6 +93,20 @@ func Run(step func(words []string, line string) string) {
 		}
 		fmt.Fprintf(w, "%s => %s\n", line, obs)
 		w.Flush() // line by line: if the process dies, the trace tells which op it was executing
+		if hp := os.Getenv("VERIF_HEAPPROFILE"); hp != "" && words[0] == "reset" {
+			nreset++
+			if nreset%40 == 0 {
+				runtime.GC()
+				if f, err := os.Create(hp); err == nil {
+					pprof.Lookup("heap").WriteTo(f, 0)
+					f.Close()
+				}
+				if f, err := os.Create(hp + ".goroutines"); err == nil {
+					pprof.Lookup("goroutine").WriteTo(f, 1)
+					f.Close()
+				}
+			}
+		}
 	}
 	w.Flush()
 	out.Close()
